@@ -891,7 +891,7 @@ func (self *TextCommandConverter) WriteTextGetCommandResult(_ ITextProtocol, str
 		return stream.WriteBytes([]byte(fmt.Sprintf("$%d\r\n%s\r\n", len(value), value)))
 	}
 
-	if len(lockResultCommandData.Data) <= 6 {
+	if len(lockResultCommandData.Data) < 6 {
 		return stream.WriteBytes([]byte("$-1\r\n"))
 	}
 	value := lockResultCommandData.GetStringValue()
